@@ -729,6 +729,14 @@ inline int pbt_main(int argc, char** argv, const std::vector<PropSpec>& specs)
                 st.fails.emplace_back(cur_msg.substr(0, 2000), path);
                 std::cerr << "FAIL " << spec->id << " index " << i << ": " << cur_msg.substr(0, 600) << "\n";
             }
+            // A tree on which this many cases fail is decided; running the rest of the segment only costs time (on some broken trees a
+            // great deal: state left behind by a failed case can make every later case of the process slow).  Six distinct failure
+            // classes are recorded at most, so nothing reportable is lost.
+            if (st.fails.size() >= 6 || st.failures >= 40)
+            {
+                ++st.labels["segment-stopped:failure-cap"];
+                break;
+            }
         }
     }
     st.next_index = start + count;
